@@ -54,7 +54,7 @@ def load_one(lit: LineIterator) -> dict:
 @document_dump_one("VASP 5 POSCAR", ["atcoords", "atnums", "cellvecs"], ["title"])
 def dump_one(f: TextIO, data: IOData):
     """Do not edit this docstring. It will be overwritten."""
-    print(data.title or "Created with IOData", file=f)
+    print("Created with IOData" if data.title is None else data.title, file=f)
     print("   1.00000000000000", file=f)
 
     # Write cell vectors, each row is one vector in angstrom:
